@@ -21,6 +21,7 @@ import (
 	"github.com/influxdata/influxdb/models"
 	"github.com/influxdata/influxdb/pkg/limiter"
 	"github.com/influxdata/influxdb/pkg/pool"
+	"github.com/influxdata/influxdb/pkg/verifhook"
 	"go.uber.org/zap"
 )
 
@@ -362,6 +363,9 @@ func (l *WAL) Remove(files []string) error {
 	for _, fn := range files {
 		l.traceLogger.Info("Removing WAL file", zap.String("path", fn))
 		os.RemoveAll(fn)
+		if verifhook.Enabled {
+			verifhook.Point("wal.removed", fn)
+		}
 	}
 
 	// Refresh the on-disk size stats
@@ -433,6 +437,9 @@ func (l *WAL) writeToLog(entry WALEntry) (int, error) {
 		// write and sync
 		if err := l.currentSegmentWriter.Write(entry.Type(), compressed); err != nil {
 			return -1, fmt.Errorf("error writing WAL entry: %v", err)
+		}
+		if verifhook.Enabled {
+			verifhook.Point("wal.append", l.currentSegmentWriter.path(), l.currentSegmentWriter.size)
 		}
 
 		select {
@@ -574,6 +581,9 @@ func (l *WAL) newSegmentFile() error {
 		return err
 	}
 	l.currentSegmentWriter = NewWALSegmentWriter(fd)
+	if verifhook.Enabled {
+		verifhook.Point("wal.newsegment", fileName)
+	}
 
 	// Reset the current segment size stat
 	atomic.StoreInt64(&l.stats.CurrentBytes, 0)
@@ -1083,8 +1093,21 @@ func (w *WALSegmentWriter) sync() error {
 	if err := w.bw.Flush(); err != nil {
 		return err
 	}
+	if verifhook.Enabled {
+		verifhook.Point("wal.flushed", w.path(), w.size)
+		if err := verifhook.Fault("wal.fsync", w.path()); err != nil {
+			return err
+		}
+	}
 
 	if f, ok := w.w.(*os.File); ok {
+		if verifhook.Enabled {
+			err := f.Sync()
+			if err == nil {
+				verifhook.Point("wal.synced", w.path(), w.size)
+			}
+			return err
+		}
 		return f.Sync()
 	}
 	return nil
